@@ -547,9 +547,9 @@ def next_psuedo_matches(state: TokenizerState) -> TokenInfo | None:
     return None
 
 
-def next_end_tokens(state: TokenizerState) -> Iterator[TokenInfo]:
-    # Add an implicit NEWLINE if the input doesn't end in one
-    if state.last_line and state.last_line[-1] not in "\r\n" and not state.last_line.strip().startswith("#"):
+def next_end_tokens(state: TokenizerState, pending: bool) -> Iterator[TokenInfo]:
+    # Add an implicit NEWLINE if a logical line is still open at the end of the input
+    if pending:
         yield TokenInfo(
             Token.NEWLINE,
             "",
@@ -645,9 +645,22 @@ def handle_end_progs(state: TokenizerState) -> Iterator[TokenInfo]:
     #     raise TokenError(f"Invalid string quotes at {state.pos} in {state.line}", (state.lnum, state.pos))
 
 
+_NOT_IN_LOGICAL_LINE: Final = {Token.NL, Token.COMMENT, Token.WS, Token.INDENT, Token.DEDENT}
+
+
 def _tokenize(readline: Callable[[], str]) -> Iterator[TokenInfo]:
     state = TokenizerState()
+    pending = False  # has the current logical line a token that its NEWLINE must still close?
+    for token in _scan_lines(state, readline):
+        if token.type == Token.NEWLINE:
+            pending = False
+        elif token.type not in _NOT_IN_LOGICAL_LINE:
+            pending = True
+        yield token
+    yield from next_end_tokens(state, pending)
 
+
+def _scan_lines(state: TokenizerState, readline: Callable[[], str]) -> Iterator[TokenInfo]:
     while True:  # loop over lines in stream
         state.move_next_line(readline)
 
@@ -682,8 +695,6 @@ def _tokenize(readline: Callable[[], str]) -> Iterator[TokenInfo]:
                 )
                 state.pos += 1
                 pos = state.pos
-
-    yield from next_end_tokens(state)
 
 
 def generate_tokens(readline: Callable[[], str] | str) -> Iterator[TokenInfo]:
